@@ -130,4 +130,57 @@ theorem src_tlv_macro_roundtrip (tlvs : List TlvField) (vals : List (Option Val)
 example : (TlvSrc.decodeTlvStreamSrc tlvProbeSchema.tlvs (TlvSrc.encodeTlvStreamSrc tlvProbeSchema.tlvs [some (.nat 7), some (.nat 3), some (.nat 1), none])).map
     (fun acc => tlvProbeSchema.tlvs.map fun f => acc.lookup f.typ) = .ok [some (.nat 7), some (.nat 3), some (.nat 1), none] := by decide
 
+/-- `ReadTrackingReader` as the source states it today (`new`, `read`, both translated): `have_read` holds iff SOME read handed out at
+    least one byte, whatever the sequence of reads; the TLV loop's end-of-stream test `!tracking_reader.have_read` (translated) therefore
+    fires iff not a single byte of the next type was there, and the `WithoutLength<Vec<T>>` guard (translated) iff the element reader
+    failed with ShortRead before its first byte -/
+theorem read_tracking_spec (lens : List Nat) (b : Bytes) (isshort hread : Bool) :
+    (TlvSrc.rtrHaveRead lens = true ↔ ∃ l ∈ lens, l ≠ 0) ∧
+    (TlvSrc.typeEofBreak (TlvSrc.rtrHaveRead (TlvSrc.bigFirstRead b)) = true ↔ b = []) ∧
+    (TlvSrc.wlVecBreak isshort hread = true ↔ isshort = true ∧ hread = false) := by
+  refine ⟨?_, ?_, ?_⟩
+  · rw [TlvSrc.rtrHaveRead_eq]; simp
+  · rw [TlvSrc.typeEofBreak_eq]; exact List.isEmpty_iff
+  · cases isshort <;> cases hread <;> simp [TlvSrc.wlVecBreak]
+example : TlvSrc.rtrHaveRead [0, 0] = false ∧ TlvSrc.rtrHaveRead [0, 2, 0] = true ∧ TlvSrc.typeEofBreak (TlvSrc.rtrHaveRead (TlvSrc.bigFirstRead [0xfd])) = false := by decide
+
+/-- over the TRANSLATED reader: the stream ends cleanly ONLY between records — on the empty rest the result is decided by the
+    missing-required test alone (never ShortRead), and a rest that holds some but not all bytes of the next type is ShortRead -/
+theorem src_eof_only_between_records (tlvs : List TlvField) (b : Bytes) :
+    (TlvSrc.decodeTlvStreamSrc tlvs [] = if reqMissing tlvs none then .error .InvalidValue else .ok []) ∧
+    (b ≠ [] → BigSize.decode b = .error .ShortRead → TlvSrc.decodeTlvStreamSrc tlvs b = .error .ShortRead) := by
+  rw [tlv_loop_is_source.1, tlv_loop_is_source.1]
+  refine ⟨by first | rfl | simp [decodeTlvStream, tlvLoop], fun hb hd => ?_⟩
+  have hne : b.isEmpty = false := by cases b with | nil => exact absurd rfl hb | cons _ _ => rfl
+  unfold decodeTlvStream tlvLoop
+  simp [hne, hd]
+example : TlvSrc.decodeTlvStreamSrc tlvProbeSchema.tlvs [] = .error .InvalidValue ∧ TlvSrc.decodeTlvStreamSrc [] [] = .ok [] ∧
+    TlvSrc.decodeTlvStreamSrc [] [0xfd, 1] = .error .ShortRead := by decide
+
+/-- over the TRANSLATED reader: ALL cut points of a valid encoding of any well-formed schema — a prefix either ends at a record
+    boundary (accepted with the later optional records absent, InvalidValue iff a required record was cut off, never ShortRead) or is
+    ShortRead; nothing else -/
+theorem src_truncation_classified (s : Schema) (v : MsgVal) (hwf : s.wf = true) (hv : v.valid s = true) (p q : Bytes)
+    (h : s.encode v = p ++ q) :
+    (TlvSrc.schemaDecodeSrc s p = .error .ShortRead ∧ ¬ ∃ k, p = boundaryCut s v k) ∨
+    ∃ k, p = boundaryCut s v k ∧
+      TlvSrc.schemaDecodeSrc s p = if reqDropped s.tlvs v.tlvs k then .error .InvalidValue else .ok ⟨v.fixed, maskAfter k v.tlvs⟩ := by
+  rw [tlv_loop_is_source.2]; exact truncation_classified s v hwf hv p q h
+example : TlvSrc.schemaDecodeSrc Gen.schema_StartBatch (List.replicate 32 7 ++ [0, 3, 1]) = .error .ShortRead ∧
+    (TlvSrc.schemaDecodeSrc Gen.schema_StartBatch (List.replicate 32 7 ++ [0, 3])).isOk = true := by decide
+
+/-- the read-to-end vector reader of the current source (`impl LengthReadable for WithoutLength<Vec<T>>`: loop skeleton matched, break
+    guard and `ReadTrackingReader` translated) over `n`-byte elements IS the model's `FieldTy.chunks n` decoder: the record is accepted
+    iff it holds a whole number of elements, the elements are its bytes in order, nothing is left unread, and a partial last element is
+    the element reader's ShortRead — for all n > 0 and all byte strings -/
+theorem without_length_vec_is_source (n : Nat) (hn : 0 < n) (b : Bytes) (k : Nat) :
+    (TlvSrc.wlVecLoopSrc n (b.length + 1 + k) [] b).map (fun l => (TlvSrc.bytesVec l, ([] : Bytes))) = (FieldTy.chunks n).decode b := by
+  rw [TlvSrc.wlVecLoopSrc_eq n hn (b.length + 1 + k) [] b (by omega)]
+  simp only [FieldTy.decode]
+  by_cases hz : b.length % n = 0
+  · rw [if_pos hz, if_pos hz]; simp [Except.map, TlvSrc.bytesVec_chunkList]
+  · rw [if_neg hz, if_neg hz]; rfl
+example : TlvSrc.wlVecLoopSrc 2 9 [] [1, 2, 3, 4] = .ok [[1, 2], [3, 4]] ∧ TlvSrc.wlVecLoopSrc 2 9 [] [1, 2, 3] = .error .ShortRead ∧
+    TlvSrc.wlVecLoopSrc 2 9 [] [] = .ok [] := by decide
+
 end Ldk.C13
